@@ -15,6 +15,7 @@
 -/
 import Blackbird.Lemmas.UnparseProgram
 import Blackbird.Lemmas.ToyScalar
+import Blackbird.Lemmas.IntScalar
 
 namespace Blackbird
 
@@ -146,31 +147,10 @@ namespace Blackbird
 
 /-! ### non-vacuity -/
 
-/-- the hypotheses about number formatting are consistent: a (degenerate) lawful instance -/
-instance : Scalar Unit where
-  ofInt _ := ()
-  ofDecimal _ := ()
-  pi := ()
-  add _ _ := ()
-  mul _ _ := ()
-  neg _ := ()
-  inv _ := ()
-  div _ _ := ()
-  pow _ _ := ()
-  powInt _ _ := ()
-  fn _ _ := ()
-  cinv a := a
-  cpow a _ := a
-  cfn _ _ := none
-  trunc _ := some 0
-  isZero _ := true
-  beq _ _ := true
-  solveEq _ _ := true
-  finite _ := true
-
-instance : Fmt Unit := ⟨fun _ => false, fun _ => false, fun _ => (), fun _ => "0.0"⟩
-
-instance : LawfulFmt Unit := ⟨fun _ _ => rfl, fun _ _ => rfl, fun _ _ => rfl⟩
+/-- the hypotheses about number formatting are consistent with the model's own literal reader: the
+integers printed in decimal satisfy them (`Lemmas/IntScalar.lean`; the complex literal `-12+34j` is
+split at the right sign and both parts read back) -/
+example : LawfulFmt IS := inferInstance
 
 /-- a non-degenerate scalar for concrete witnesses: thousandths, printed with three decimals -/
 instance : Fmt ZS where
